@@ -151,6 +151,7 @@ fn main() {
         "C06" => c06,
         "C07" => c07,
         "C08" => c08,
+        "C09" => c09,
         "C12" => c12,
         "C13" => c13,
         "C14" => c14,
